@@ -5,6 +5,7 @@ import (
 	"fmt"
 	"image"
 	"image/color"
+	"math"
 	"os"
 	"runtime"
 	"runtime/debug"
@@ -95,7 +96,8 @@ type c18Pool struct {
 	intact   []bool // an unfaulted corpus file: the only kind the real vec back end is given
 	pals     []*[64]color.RGBA
 	progs    [][]world.Op
-	firstUse [][]world.Op // earlier uses of an object that lives through two uses: may start without Reset, with observers
+	rstops   [][]render.Stop // gradient stops in the Renderer's own form, shared by direct users of render.Gradient
+	firstUse [][]world.Op    // earlier uses of an object that lives through two uses: may start without Reset, with observers
 	cregs    *[64]color.RGBA
 	// option values built once per case and shared by every task that decodes
 	// with options (an application keeps such values around and reuses them)
@@ -213,6 +215,20 @@ func c18BuildPool(ctx *Ctx, t *tape.Tape) *c18Pool {
 	for i := 0; i < 2; i++ {
 		p.firstUse = append(p.firstUse, world.GenProgram(t, world.GenCfg{MaxItems: 3, Abstract: true, EncOnly: true, ReadFirst: true, NoReset: t.Bool()}))
 	}
+	for i := 0; i < 2; i++ {
+		n := 1 + t.Intn(5)
+		st := make([]render.Stop, n)
+		for j := range st {
+			// offsets in document order: mostly increasing, sometimes not
+			st[j].Offset = float64(t.Intn(65)) / 64
+			if j > 0 && t.Chance(3, 4) && st[j].Offset < st[j-1].Offset {
+				st[j].Offset = st[j-1].Offset
+			}
+			a := uint16(t.Intn(65536))
+			st[j].RGBA64 = color.RGBA64{uint16(t.Intn(int(a) + 1)), uint16(t.Intn(int(a) + 1)), uint16(t.Intn(int(a) + 1)), a}
+		}
+		p.rstops = append(p.rstops, st)
+	}
 	p.cregs = world.GenPalette(t)
 	p.cregs[t.Intn(64)] = color.RGBA{uint8(t.Intn(256)), uint8(t.Intn(256)), uint8(t.Intn(256)), 0}
 	idx := t.Intn(64)
@@ -245,6 +261,12 @@ func (p *c18Pool) hash() uint64 {
 	}
 	for _, c := range p.cregs {
 		h = fnvAdd(h, uint64(c.R)|uint64(c.G)<<8|uint64(c.B)<<16|uint64(c.A)<<24)
+	}
+	for _, st := range p.rstops {
+		for _, x := range st {
+			h = fnvAdd(h, math.Float64bits(x.Offset))
+			h = fnvAdd(h, uint64(x.RGBA64.R)|uint64(x.RGBA64.G)<<16|uint64(x.RGBA64.B)<<32|uint64(x.RGBA64.A)<<48)
+		}
 	}
 	for _, pr := range append(append([][]world.Op(nil), p.progs...), p.firstUse...) {
 		h = fnvAdd(h, hashOps(pr))
@@ -288,7 +310,7 @@ func c18MakeTask(t *tape.Tape, p *c18Pool) c18Task {
 	if logged {
 		suffix += " via DestinationLogger"
 	}
-	switch t.Pick(4, 2, 4, 3, 1, 2, 3, 3, 2, 1, 2, 2, 1, 1, 2, 2) {
+	switch t.Pick(4, 2, 4, 3, 1, 2, 3, 3, 2, 1, 2, 2, 1, 1, 2, 2, 1) {
 	case 0:
 		return c18Task{name: "decode->Renderer->recording rasteriser" + suffix, run: func() string {
 			z := &world.RecRaster{}
@@ -393,6 +415,15 @@ func c18MakeTask(t *tape.Tape, p *c18Pool) c18Task {
 					h = fnvAdd(h, 7)
 				}
 				h = fnvAdd(h, fnv([]byte(c.String())))
+				gc := ivg.EncodeGradient(x&0x3f, byte(i)&0x3f, x>>7, (x>>5)&3, byte(h)&0x3f)
+				cb, nb, sh, sp, ns := ivg.DecodeGradient(gc)
+				h = fnvAdd(h, uint64(cb)|uint64(nb)<<8|uint64(sh)<<16|uint64(sp)<<24|uint64(ns)<<32)
+				pr, pok := ivg.PaletteIndexColor(x).RGBA()
+				cr := ivg.CRegColor(x).Resolve(pal, cregs)
+				if pok {
+					h = fnvAdd(h, uint64(pr.R))
+				}
+				h = fnvAdd(h, uint64(cr.G)|uint64(cr.A)<<8)
 			}
 			return fmt.Sprintf("digest %016x", h)
 		}}
@@ -478,6 +509,31 @@ func c18MakeTask(t *tape.Tape, p *c18Pool) c18Task {
 			}
 			err2 := decode.Decode(wrap(&r), src2)
 			return digestRast(z.Ops, err1) + " second err=" + errText(err2)
+		}}
+	case 16:
+		// render.Gradient used directly over shared stops
+		st := p.rstops[t.Intn(len(p.rstops))]
+		shape, spread := render.Shape(t.Intn(2)), render.Spread(t.Intn(4))
+		sc := float64(int(1)<<uint(t.Intn(4))) / 64
+		aff := render.Aff3{sc, 0, float64(t.Range(-4, 4)) / 8, 0, sc, float64(t.Range(-4, 4)) / 8}
+		return c18Task{name: "render.Gradient used directly over shared stops", run: func() string {
+			var g render.Gradient
+			ok := g.Init(shape, spread, aff, st)
+			h := uint64(1)
+			if ok {
+				for y := -4; y < 40; y += 5 {
+					for x := -4; x < 40; x += 3 {
+						r, gg, b, a := g.At(x, y).RGBA()
+						h = fnvAdd(h, uint64(r)|uint64(gg)<<16|uint64(b)<<32|uint64(a)<<48)
+					}
+				}
+				rs := render.AppendRanges(nil, st)
+				h = fnvAdd(h, uint64(len(rs)))
+				for _, c := range g.StopColors() {
+					h = fnvAdd(h, uint64(c.R)|uint64(c.G)<<8|uint64(c.B)<<16|uint64(c.A)<<24)
+				}
+			}
+			return fmt.Sprintf("ok=%t digest %016x", ok, h)
 		}}
 	default:
 		vbs := []ivg.ViewBox{ivg.DefaultViewBox, {MinX: 0, MinY: 0, MaxX: 48, MaxY: 24}}
